@@ -169,7 +169,7 @@ def model_req(h: dict) -> str:
 
 def run(tier: str, seed: int, rep: Report, model: Model) -> dict:
     rnd = rng_for("C17", seed)
-    n = depth(tier, 400, 4000)
+    n = depth(tier, 400, 15000)
     rep.rule = ("generated models (1-4 fields, optional / plain fields, markers, expressions) with 2-4 constructions / model_validate calls in "
                 "shuffled keyword order (conforming or with one / two faults; model_validate with no / a fresh / a reused context= dict) and, under validate_assignment, one assignment; nested models; "
                 "class-definition dtype cross-check for npt.NDArray[...]; distinct = distinct history; non-trivial = at least two validations")
